@@ -91,11 +91,10 @@ def run_stream(case):
   return out
 
 
-# (the other BBOB functions raise TypeError under the sandbox's numpy 2.x:
-# float() of a 1-element array — an environment mismatch, not this property)
-BBOB_FNS = ['Sphere', 'BuecheRastrigin', 'AttractiveSector', 'StepEllipsoidal',
-            'RosenbrockRotated', 'SharpRidge', 'DifferentPowers', 'GriewankRosenbrock',
-            'Schwefel', 'Katsuura', 'Lunacek']
+BBOB_FNS = ['Sphere', 'Rastrigin', 'BuecheRastrigin', 'LinearSlope', 'AttractiveSector',
+            'StepEllipsoidal', 'RosenbrockRotated', 'Discus', 'BentCigar', 'SharpRidge',
+            'DifferentPowers', 'Weierstrass', 'SchaffersF7', 'GriewankRosenbrock',
+            'Schwefel', 'Katsuura', 'Lunacek', 'Gallagher101Me']
 NOISES = ['NO_NOISE', 'MODERATE_GAUSSIAN', 'SEVERE_GAUSSIAN', 'MODERATE_UNIFORM',
           'SEVERE_UNIFORM', 'MODERATE_SELDOM_CAUCHY', 'SEVERE_SELDOM_CAUCHY',
           'LIGHT_ADDITIVE_GAUSSIAN', 'SEVERE_ADDITIVE_GAUSSIAN']
